@@ -65,3 +65,18 @@ Proof.
   apply Rmult_integral in H'. destruct H' as [H'|H']; [|contradiction].
   apply Rmult_integral in H'. destruct H'; [contradiction|lra].
 Qed.
+
+(* hypothesis-free form: the generated rates are the generated correction factor times the grid sum of the generated
+   per-point spectra (of grpI's scalar record) times the cell area *)
+Lemma generated_counts_shape (Q : (R -> C) -> R -> R -> C) (jsis : pm_params -> R) (S Ssw : R -> R -> pm_params) (p0 : pm_params) pts dw2 :
+  pm_counts_coincidences Q S p0 pts dw2 = pm_counts_correction p0 * grid_sum (fun ws wi => pm_jsi Q (S ws wi)) pts dw2 /\
+  pm_counts_singles_signal jsis S p0 pts dw2 = pm_counts_correction p0 * grid_sum (fun ws wi => jsis (S ws wi)) pts dw2 /\
+  pm_counts_singles_idler jsis Ssw p0 pts dw2 = pm_counts_correction p0 * grid_sum (fun ws wi => jsis (Ssw wi ws)) pts dw2.
+Proof.
+  unfold pm_counts_coincidences, pm_counts_singles_signal, pm_counts_singles_idler. rewrite !grid_sum_pm. repeat split.
+Qed.
+
+(* any rate of that shape scales with the per-point spectrum *)
+Lemma shape_linear k corr (f g : R -> R -> R) pts dw2 :
+  (forall ws wi, f ws wi = k * g ws wi) -> corr * grid_sum f pts dw2 = k * (corr * grid_sum g pts dw2).
+Proof. intros H. rewrite (grid_sum_scale k f g pts dw2 H). ring. Qed.
